@@ -141,6 +141,7 @@ func suiteExpand(t *testing.T, cfg cfgT) {
 			add("G", "c", "o", strp("u2"), nil)
 			add("G", "a", "m", nil, &ketoapi.SubjectSet{Namespace: "H", Object: "d", Relation: ""})
 			add("H", "d", "", strp("u1"), nil)
+			add("H", "d", "o", strp("u0"), nil) // another relation of the same object: not part of H:d#""
 			add("G", "a", "m", nil, &ketoapi.SubjectSet{Namespace: "G", Object: "a", Relation: "m"})
 		}
 		// shuffle insertion has no influence on shard order (random ids); insert twice in two calls to vary it anyway
